@@ -213,6 +213,11 @@ def run_case(ctx, rep, spec, recipe, kept, serial, model, start=None, species=No
         rep.agree()
     else:
         rep.tie("chef's output layout (file, offset per box) differs from the model's", case)
+    why = writers.global_header_theorem_applies(out, leanio)
+    if why:
+        rep.tie(f"global header of chef's output: {why} (whose parse-after-render law is proved)", case)
+    else:
+        rep.agree(); rep.count("header-theorem-applies")
 
 
 def run(ctx, rep, model=True):
